@@ -144,7 +144,7 @@ func genYModsCase(r *Rng) Case {
 		f := pick(r, []string{"feature-cycle", "identity-cycle", "typedef-cycle-used", "typedef-cycle-unused", "grouping-cycle", "grouping-cycle-nested",
 			"import-cycle", "import-self", "import-missing", "unknown-prefix", "unknown-typedef", "unknown-grouping", "unknown-feature", "unknown-identity",
 			"dup-feature", "dup-identity", "dup-typedef", "dup-grouping", "bad-augment-path", "dev-race", "include-cycle", "include-missing",
-			"sub-import-missing", "sub-import-cycle"})
+			"sub-import-missing", "sub-import-cycle", "orphan-submodule", "orphan-submodule"})
 		if (f == "include-cycle" || f == "include-missing" || f == "sub-import-missing" || f == "sub-import-cycle") && all["mc"]["subs"] == nil {
 			f = "feature-cycle"
 		}
@@ -219,6 +219,9 @@ func genYModsCase(r *Rng) Case {
 			specs = append(specs, md)
 			c["mods"] = specs
 			c["extraImports"] = []any{[]any{"md", "mc"}}
+		case "orphan-submodule":
+			// a submodule of a module that is not supplied (alone it would be the only text of a set: here it comes with others)
+			c["orphan"] = pick(r, []string{"nowhere", "mz"})
 		case "import-self":
 			c["extraImports"] = []any{[]any{m, m}}
 		case "import-missing":
@@ -411,7 +414,7 @@ func renderSub(parent string, s mspec) string {
 var modsClasses = []struct{ sub, cls string }{
 	{"Feature cyclic reference", "err:feature-cycle"}, {"Identity cyclic reference", "err:identity-cycle"},
 	{"Typedef cyclic reference", "err:typedef-cycle"}, {"Grouping cycle detected", "err:grouping-cycle"},
-	{"cycle detected", "err:import-cycle"}, {"module not found", "err:ref"}, {"unknown submodule", "err:ref"}, {"unknown import", "err:ref"},
+	{"cycle detected", "err:import-cycle"}, {"module not found", "err:ref"}, {"unknown submodule", "err:ref"}, {"unknown import", "err:ref"}, {"non-existent module", "err:ref"},
 	{"unknown type", "err:ref"}, {"Unknown grouping", "err:ref"}, {"not valid", "err:ref"}, {"Can't find base", "err:ref"},
 	{"Invalid path", "err:ref"}, {"cannot shadow", "err:dup"}, {"Duplicate", "err:dup"}, {"redefinition", "err:dup"}, {"already defined", "err:dup"},
 	{"Property being added", "err:dev"}, {"Only existing", "err:dev"},
@@ -440,6 +443,9 @@ func runYMods(c Case) string {
 		for _, sub := range carr(s.(mspec), "subs") {
 			texts = append(texts, renderSub(cstr(s.(mspec), "name"), sub.(mspec)))
 		}
+	}
+	if o := cstr(c, "orphan"); o != "" {
+		texts = append(texts, "submodule orph { belongs-to "+o+" { prefix "+o+"; }\n  container orphtop { leaf orphl { type string; } }\n}\n")
 	}
 	first, firstDump := "", ""
 	unstable := ""
